@@ -39,6 +39,7 @@ type vW struct {
 	nialloc  uint64
 	dirsDone []*inode.Inode
 	quiet    bool
+	coarseBitmap bool // a journal access wider than one bit inside the bitmap region (bitmapHooks)
 }
 
 func vWorld(name string) *vW {
